@@ -9,6 +9,7 @@ from harness.lib import scen
 from harness.lib.core import VERIF, Ctx, Rng, lean_lock, run_driver
 from harness.rigs import request as rig
 from harness.rigs import request_contract as rcon
+from harness.rigs import request_edits as redits
 from harness.rigs import request_state as rstate
 
 MANIFEST = {
@@ -26,7 +27,7 @@ MANIFEST = {
     "technique": "Lean 4 theorems over a model of request dispatch; regenerated shape table; differential rig on live request trees",
     "design_ref": "5/C05",
 }
-MODULES = ["PrimaiteModel.Props.C05"]
+MODULES = ["PrimaiteModel.Props.C05"]   # the static part (harness/props/c05x.py) adds C05Schema, C05Guards, C05Inst
 EXE = "drv_c05"
 QUICK_SCEN = ["data_manipulation", "basic_firewall", "basic_switched_network"]
 
@@ -296,6 +297,26 @@ def corpus(ctx: Ctx):
                           {"scenario": w["scenario"], "req": w["req"], "observed": out})
 
 
+def edits(ctx: Ctx):
+    """R-edits: real install / uninstall / connect / disconnect / create / delete / restore / add / remove against addKey / removeKey"""
+    rng = ctx.rng.fork("edits")
+    bad: List[str] = []
+    games = [("zoo#7", lambda: rcon.zoo_game(7)[0])]
+    for name, path in scenarios(ctx).items():
+        games.append((name, lambda path=path: scen.make_game(scen.load_cfg(path))))
+    for label, make in games:
+        try:
+            sim = make().simulation
+        except Exception:
+            continue
+        bad += redits.exercise(ctx, label, sim, rng.fork(label))
+    ctx.oblige("rig:R-edits every real tree edit is local, leads to the component's own manager / leaves no route, and orders keys like "
+               "addKey / removeKey", "correspondence", not bad, "; ".join(bad[:6]))
+    for b in bad[:1]:
+        ctx.violation({"kind": "tree-edit-differs-from-model", "edit": b.split(": ")[1] if ": " in b else "?"},
+                      "a real request-tree edit differs from the model's addKey/removeKey (Props/C05Inst.lean): " + b, {"detail": bad[:6]})
+
+
 def run(ctx: Ctx):
     with lean_lock():
         ctx.extract("RequestCore", x_core.emit)
@@ -319,6 +340,7 @@ def run(ctx: Ctx):
                                 "re-sent with the real handlers and compared by deep state fingerprint")
     rcon.search(ctx, registry(), scenarios(ctx), zoo_seeds=[7] if not ctx.thorough else [7, 8, 9],
                 gen_families=[] if not ctx.thorough else [("lan", 3), ("routed", 4), ("dmz", 5)])
+    edits(ctx)
     # static part: schematic request tree (E4) x action templates (E5): C05_action_templates_resolve & co (Props/C05Schema.lean)
     from harness.props import c05x
     c05x.extra(ctx)
